@@ -4,45 +4,45 @@ Local Open Scope N_scope.
 
 (* a repeat (same Identifier => same cache entry, same authenticator, less than DuplicateInterval after the
    original was received) is not registered; the only output is the stored reply bytes to the original's client *)
-Theorem C10_repeat : forall md5 cfg st h c now rq h' r,
+Theorem C10_repeat : forall md5 cfg fs st h c now rq h' r,
   get_rq st h = Some rq -> cache_entry st c (rq_rqid rq) = Some h' -> get_rq st h' = Some r ->
   is_dup cfg rq r now = true ->
-  exists st' o, addclientrq md5 cfg st h c now = (false, st', o) /\
+  exists st' o, addclientrq md5 cfg fs st h c now = (false, st', o) /\
     match rq_replybuf r, rq_from r with
-    | Some b, Some c' => o = [OReply c' b]
+    | Some b, Some c' => o = [OReply c' b] \/ (fs 14 = true /\ o = [])   (* second case: the reply queue could not grow *)
     | _, _ => o = []
     end.
 Proof. exact addclientrq_dup. Qed.
 Print Assumptions C10_repeat.
 
 (* through the handler: nothing is placed in any server's table, nothing else is sent *)
-Theorem C10_repeat_not_forwarded : forall md5 rx cfg st h c now rnd r0 msg rq h' r,
+Theorem C10_repeat_not_forwarded : forall md5 rx cfg fs st h c now rnd r0 msg rq h' r,
   get_rq st h = Some r0 ->
   buf2radmsg md5 (match rq_buf r0 with Some b => b | None => [] end) (cc_secret (clconf_of cfg c)) None = Some msg ->
-  m_mainvalid msg = false -> request_code (m_code msg) = true ->
+  fs 1 = false -> m_mainvalid msg = false -> request_code (m_code msg) = true ->
   let r1 := rq_set_ids (rq_set_msg (rq_set_buf r0 None) (Some msg)) (m_id msg) (m_auth msg) in
   let stp := purgedupcache cfg (set_rq (set_rq st h (rq_set_buf r0 None)) h r1) c now in
   get_rq stp h = Some rq -> cache_entry stp c (rq_rqid rq) = Some h' -> get_rq stp h' = Some r ->
   is_dup cfg rq r now = true ->
-  exists st', radsrv md5 rx cfg st h c now rnd =
-    (st', match rq_replybuf r, rq_from r with
-          | Some b, Some c' => [OReply c' b; ORet 1]
-          | _, _ => [ORet 1]
-          end).
+  exists st' o, radsrv md5 rx cfg fs st h c now rnd = (st', o) /\
+    match rq_replybuf r, rq_from r with
+    | Some b, Some c' => o = [OReply c' b; ORet 1] \/ (fs 14 = true /\ o = [ORet 1])
+    | _, _ => o = [ORet 1]
+    end.
 Proof. exact radsrv_dup. Qed.
 Print Assumptions C10_repeat_not_forwarded.
 
 (* another authenticator, or at/after the interval: treated as new *)
-Theorem C10_new : forall md5 cfg st h c now rq h' r,
+Theorem C10_new : forall md5 cfg fs st h c now rq h' r,
   get_rq st h = Some rq -> cache_entry st c (rq_rqid rq) = Some h' -> get_rq st h' = Some r ->
   is_dup cfg rq r now = false ->
-  exists st', addclientrq md5 cfg st h c now = (true, st', []).
+  exists st', addclientrq md5 cfg fs st h c now = (true, st', []).
 Proof. exact addclientrq_new. Qed.
 Print Assumptions C10_new.
 
-Theorem C10_first : forall md5 cfg st h c now rq,
+Theorem C10_first : forall md5 cfg fs st h c now rq,
   get_rq st h = Some rq -> cache_entry st c (rq_rqid rq) = None ->
-  exists st', addclientrq md5 cfg st h c now = (true, st', []).
+  exists st', addclientrq md5 cfg fs st h c now = (true, st', []).
 Proof. exact addclientrq_first. Qed.
 Print Assumptions C10_first.
 
